@@ -27,8 +27,8 @@ type c11Spec struct {
 	CartType uint8  `json:"cart_type"`
 	RomSize  uint8  `json:"rom_size"`
 	RamSize  uint8  `json:"ram_size"`
-	Len      int    `json:"len"`       // -1: the size the header declares
-	Fill     uint64 `json:"fill_seed"` // 0: zero fill
+	Len      int    `json:"len"`               // -1: the size the header declares
+	Fill     uint64 `json:"fill_seed"`         // 0: zero fill
 	Head     []byte `json:"head,omitempty"`    // overrides image[0:len(Head)] (arbitrary header bytes)
 	Program  []byte `json:"program,omitempty"` // placed at 0x0100 (after Head)
 	Far      bool   `json:"far,omitempty"`     // place Program at 0x0150 behind a JP at 0x0100, clear of the header bytes
@@ -224,7 +224,7 @@ func c11GenProgram(rt *rapid.T) []byte {
 func TestC11(t *testing.T) {
 	c := vf.New(t, "C11", "(a) rapid ROM images: hostile lengths (0, 1, around the header, page +-1, odd, multi-page) and well-sized images with arbitrary header bytes, followed by window reads, control writes and a CPU run; "+
 		"(b) every supported cartridge type x ROM size code x RAM size code x every value written to every control region (with A8 variants), followed by reads of both ends of every window and a RAM write/read; "+
-		"(c) rapid multi-step write/read sequences over the whole address space; (d) rapid programs that hammer cartridge registers, DMA, LCDC, the APU, OAM pointers and HALT/STOP on the full machine for up to 60000 cycles. "+
+		"(c) rapid multi-step write/read sequences over the whole address space; (c2) every sound channel restarted at every phase of its period; (d) rapid programs that hammer cartridge registers, DMA, LCDC, the APU, OAM pointers and HALT/STOP on the full machine for up to 60000 cycles. "+
 		"Oracle: construction may panic (allowed); any later panic is a violation. Non-trivial: the image was accepted and a later step touched a cartridge window; distinct by case hash / by (type, sizes, region, value).")
 	defer c.Flush()
 	c.RunReplays()
@@ -300,6 +300,69 @@ func TestC11(t *testing.T) {
 		}
 		c.Bulk("single-write", n, nt)
 		c.Exhaustive(fmt.Sprintf("%d cartridge types x ROM size codes %v x RAM size codes 0-5 x 11 control addresses x all 256 values, each followed by reads of 7 window probes and a RAM write/read", len(c11Types), romSizes))
+	})
+
+	// Sound channels restarted at every phase of their period: a trigger, a delay of d machine cycles, a
+	// second trigger (the wave channel's restart-while-reading quirk, sweep and length reloads all depend on
+	// where in its period the channel is), then a short run and reads of the status and wave RAM.
+	c.Sub("apu-restart-phases", func(t *testing.T) {
+		var n int64
+		type chn struct {
+			name             string
+			dac, lo, hi, aux uint16
+			dacV, auxV       uint8
+			freqs            []int
+		}
+		waveF := []int{0x7ff, 0x7fe, 0x7fd, 0x7fc, 0x7fb, 0x7f8, 0x7f0, 0x7e0, 0x7c0, 0x780, 0x700, 0x600, 0x400, 0x000}
+		sqF := []int{0x7ff, 0x7fe, 0x7f0, 0x700, 0x400, 0x000}
+		chans := []chn{
+			{"wave", 0xff1a, 0xff1d, 0xff1e, 0xff1c, 0x80, 0x20, waveF},
+			{"square1-sweep", 0xff12, 0xff13, 0xff14, 0xff10, 0xf0, 0x11, sqF},
+			{"square1-sweep-down", 0xff12, 0xff13, 0xff14, 0xff10, 0xf0, 0x1f, sqF},
+			{"square2", 0xff17, 0xff18, 0xff19, 0xff16, 0xf0, 0x3f, sqF},
+			{"noise", 0xff21, 0xff22, 0xff23, 0xff20, 0xf0, 0x3f, []int{0x00, 0x01, 0x08, 0x17, 0x0f, 0xd7, 0xf7}},
+		}
+		idx := 0
+		for _, ch := range chans {
+			for _, f := range ch.freqs {
+				span := 2*16*(2048-f) + 6
+				if ch.name != "wave" {
+					span = 600
+				}
+				if span > c.Env.Pick(1100, 70000) {
+					span = c.Env.Pick(1100, 70000)
+				}
+				for d := 0; d <= span; d++ {
+					idx++
+					if !c.Env.Mine(idx) {
+						continue
+					}
+					trig := c11Op{Kind: "w", A: ch.hi, V: 0x80 | uint8(f>>8)&7}
+					if ch.name == "noise" {
+						trig.V = 0x80
+					}
+					for _, lenEn := range []uint8{0x00, 0x40} {
+						t2 := trig
+						t2.V |= lenEn
+						cas := c11Case{Spec: c11Spec{Len: -1}, Ops: []c11Op{{Kind: "w", A: 0xff26, V: 0x80}, {Kind: "w", A: ch.dac, V: ch.dacV}, {Kind: "w", A: ch.aux, V: ch.auxV},
+							{Kind: "w", A: ch.lo, V: uint8(f)}, trig, {Kind: "hw", N: d}, t2, {Kind: "hw", N: 40}, {Kind: "r", A: 0xff26}, {Kind: "r", A: 0xff30}, {Kind: "r", A: 0xff3f},
+							{Kind: "w", A: ch.dac, V: 0x00}, {Kind: "w", A: ch.dac, V: ch.dacV}, t2, {Kind: "hw", N: 3}, {Kind: "w", A: 0xff26, V: 0x00}, {Kind: "w", A: 0xff26, V: 0x80}, t2, {Kind: "hw", N: 20}}}
+						_, sig, err := c11Run(cas)
+						n++
+						if idx%4099 == 0 {
+							c.Sample("apu-restart-phases", cas)
+						}
+						if err != nil {
+							if known, first := c.FailFirst("crash", sig, err.Error(), cas); !known && first {
+								t.Errorf("%v", err)
+							}
+						}
+					}
+				}
+			}
+		}
+		c.Bulk("apu-restart-phases", n, n)
+		c.Exhaustive("each sound channel triggered, then triggered again after every delay 0..2 wave periods (wave channel, 14 frequencies; quick: at most 1100 cycles) / 0..600 cycles (squares with and without sweep, noise), with and without length enable, followed by DAC and power cycling with further triggers")
 	})
 
 	opGen := rapid.Custom(func(rt *rapid.T) c11Op {
